@@ -369,6 +369,23 @@ def c02_oracle(lines, out, complete=True):
     return bad
 
 
+def stress_for(which):
+    def stress(ctx):
+        runs = 1 if ctx.tier == "quick" else 6
+        info = []
+        for i in range(runs):
+            w, per = (6, 60) if ctx.tier == "quick" else (8, 150)
+            d = E.run_stress(w, per, 2, ctx.rnd.randrange(1, 10 ** 6))
+            bad = E.stress_oracle(d, which)
+            info.append(dict(writers=w, per_writer=per, appended=d.get("appended"), write_s=d.get("write_s"), violations=len(bad)))
+            if bad:
+                ctx.violation("hook-free stress (%d writers x %d appends, pollers, followers): " % (w, per) + "; ".join(bad)[:700],
+                              dict(engine="C-stress", stress_args=[w, per, 2], findings=bad[:10],
+                                   followers=[dict(name=f["name"], n_items=len(f["items"]), closed=f["closed"]) for f in d.get("followers", [])]))
+        return info
+    return stress
+
+
 def conc_run(pid, profile, oracle, nq, nt, steps=(20, 40, 80), stress=None):
     def run(ctx):
         n = nq if ctx.tier == "quick" else nt
@@ -452,7 +469,7 @@ P_C02 = dict(followers=[0, 1, 1, 2], pollers=[2, 2, 3], writers=[2, 2, 3, 4], p_
 
 REGISTRY["C02"] = dict(
     prop_file="Props/C02.v", engine="C",
-    run=conc_run("C02", P_C02, c02_oracle, 60, 1500),
+    run=conc_run("C02", P_C02, c02_oracle, 60, 1500, stress=stress_for("C02")),
     replay=conc_replay(c02_oracle),
     level_text="Coq: over the transition system of Store::append/read (labels = code between two sync points), for any "
                "number of writers/pollers/followers and every schedule: commit order = broadcast order = id order, the "
@@ -569,13 +586,13 @@ P_C11 = dict(followers=[1, 2, 2, 3], pollers=[0, 0, 1], writers=[1, 2, 2], p_lim
 
 REGISTRY["C03"] = dict(
     prop_file="Props/C03.v", engine="C",
-    run=conc_run("C03", P_C03, follow_oracle("C03"), 60, 1500),
+    run=conc_run("C03", P_C03, follow_oracle("C03"), 60, 1500, stress=stress_for("C03")),
     replay=conc_replay(follow_oracle("C03")),
     level_text="(see Props/C03.v) follower protocol over the transition system of Store::read/append", level_note=TRUSTED,
     assumptions=[])
 REGISTRY["C11"] = dict(
     prop_file="Props/C11.v", engine="C",
-    run=conc_run("C11", P_C11, follow_oracle("C11"), 60, 1500),
+    run=conc_run("C11", P_C11, follow_oracle("C11"), 60, 1500, stress=stress_for("C11")),
     replay=conc_replay(follow_oracle("C11")),
     level_text="(see Props/C11.v) follow options over the transition system of Store::read/append", level_note=TRUSTED,
     assumptions=[])
